@@ -144,7 +144,12 @@ def register(R):
     def trav_post(a, r):
         t = r[1].val()
         ex_, rem, route = t.experienced_route, t.remaining_route, a.route_estimate
-        return And(Or(ok(r), failed(r)), Implies(ok(r), And(
+        j_ = bound(IntT, "j_wf")
+        rt_ = a.route_estimate
+        at_ = lambda q, k_: Sym(q.ty.elem, q.e[k_.e])
+        wf_route = And(forall([j_], Implies(And(j_ >= 0, j_ + 1 < rt_.len()), at_(rt_, j_).end == at_(rt_, j_ + 1).start)),
+                       forall([j_], Implies(And(j_ >= 0, j_ < rt_.len()), at_(rt_, j_).distance_km >= 0)))
+        return And(Or(ok(r), failed(r)), Implies(And(ok(r), wf_route), And(
             # the driven part starts where the route starts, the remaining part ends where the route ends,
             # and the two parts join: the vehicle ends the step at the junction (C06)
             Implies(ex_.len() > 0, And(route.len() > 0, ex_[0].start == route[0].start)),
